@@ -1,16 +1,17 @@
 #!/bin/sh
 # usage: verify_seed.sh <seed-dir-name e.g. C03-1> <worktree e.g. /tmp/seed-c03>
 # Confirms in the scratch worktree: (1) demo fails with the seeded change, (2) demo passes without it,
+# (DEMO_FLAGS="--features shuttle" for a demo that needs the shuttle build)
 # (3) the existing ipa-core lib tests pass with the change (only the demo tests may fail). Writes seeded/<id>/verify.log
 ID=$1; WT=$2; OUT=/verif/seeded/$ID/verify.log
 export CARGO_TARGET_DIR=$WT/target CARGO_NET_OFFLINE=true CARGO_PROFILE_DEV_DEBUG=0 CARGO_PROFILE_TEST_DEBUG=0
 cd $WT && git reset -q --hard HEAD && git clean -fdq -e target -e seeded_out >/dev/null 2>&1
 git apply /verif/seeded/$ID/patch.diff && git apply /verif/seeded/$ID/demo.diff || { echo "APPLY FAILED" > $OUT; exit 1; }
 {
-echo "== with seeded change: demo"; cargo test -p ipa-core --lib --offline seeded_demo -- --test-threads=4 2>&1 | grep -a "^test \|^test result" | tail -15
+echo "== with seeded change: demo"; cargo test -p ipa-core --lib --offline $DEMO_FLAGS seeded_demo -- --test-threads=4 2>&1 | grep -a "^test \|^test result" | tail -15
 echo "== with seeded change: whole ipa-core lib suite"; cargo test -p ipa-core --lib --offline -- --test-threads=8 2>&1 | grep -a "^test result\|FAILED\|failed" | tail -15
 git apply -R /verif/seeded/$ID/patch.diff
-echo "== without seeded change: demo"; cargo test -p ipa-core --lib --offline seeded_demo -- --test-threads=4 2>&1 | grep -a "^test \|^test result" | tail -15
+echo "== without seeded change: demo"; cargo test -p ipa-core --lib --offline $DEMO_FLAGS seeded_demo -- --test-threads=4 2>&1 | grep -a "^test \|^test result" | tail -15
 } > $OUT 2>&1
 git reset -q --hard HEAD; git clean -fdq -e target -e seeded_out >/dev/null 2>&1
 echo "verify_seed $ID done"; tail -3 $OUT
